@@ -85,7 +85,7 @@
 		unsafe { assert!(SIGN_CALLS == 0, "nothing is signed when the body cannot be written"); }
 	}
 
-	/// @ob spki.export.ed25519 @props C02,C06,C11 @kind forall @tier quick @timeout 900 @bound "4-byte symbolic raw key, Ed25519" @fns rcgen::serialize_public_key_der,rcgen::KeyPair::public_key_der
+	/// @ob spki.export.ed25519 @props C02,C06,C07,C11 @kind forall @tier quick @timeout 900 @bound "4-byte symbolic raw key, Ed25519" @fns rcgen::serialize_public_key_der,rcgen::KeyPair::public_key_der
 	#[kani::proof]
 	#[kani::unwind(24)]
 	fn spki_export_ed25519() {
@@ -100,7 +100,7 @@
 		while i < exp.len() { assert!(der[i] == exp[i]); i += 1; }
 	}
 
-	/// @ob spki.export.p256 @props C02,C06,C11 @kind forall @tier quick @timeout 900 @bound "4-byte symbolic raw key, ECDSA P-256 (curve OID inside the SPKI algorithm)" @fns rcgen::serialize_public_key_der
+	/// @ob spki.export.p256 @props C02,C06,C07,C11 @kind forall @tier quick @timeout 900 @bound "4-byte symbolic raw key, ECDSA P-256 (curve OID inside the SPKI algorithm)" @fns rcgen::serialize_public_key_der
 	#[kani::proof]
 	#[kani::unwind(40)]
 	fn spki_export_p256() {
@@ -115,7 +115,7 @@
 		while i < exp.len() { assert!(der[i] == exp[i]); i += 1; }
 	}
 
-	/// @ob spki.export.rsa @props C02,C06,C11 @kind forall @tier quick @timeout 900 @bound "4-byte symbolic raw key, RSA (NULL parameters)" @fns rcgen::serialize_public_key_der
+	/// @ob spki.export.rsa @props C02,C06,C07,C11 @kind forall @tier quick @timeout 900 @bound "4-byte symbolic raw key, RSA (NULL parameters)" @fns rcgen::serialize_public_key_der
 	#[kani::proof]
 	#[kani::unwind(40)]
 	fn spki_export_rsa() {
